@@ -19,7 +19,7 @@ RULE = (
     "congruent modulo 64 and >= 64 (so that the residue algebra is identical) but up to 2**63 apart. While reading the "
     "namespace and querying min/max/extent/fixed_length/is_aligned_at_byte of every type and field offset, == and hash: "
     "(a) no composite operator may be numerically expanded, (b) every multiset enumeration must use a reduced count "
-    "r <= 2d-1 over <= d residues and every product <= d**2 tuples, (c) enumerated tuples must be identical and logical "
+    "r <= 2d-1 over <= d residues and every product <= d**2 tuples, min/max/sum/sorted/any/all inside the symbolic code are charged for the size of the operand they walk, (c) enumerated tuples must be identical and logical "
     "steps within 1.5x across magnitudes. Non-trivial: template has a variable-length array with a multi-valued element; "
     "distinct by (template, magnitude)."
 )
@@ -27,7 +27,8 @@ ASSUMPTIONS = [
     "cost is measured in logical units (enumerated tuples, PY_START+JUMP events in pydsdl code), never in wall time",
     "templates whose predicted enumeration for the *small* instantiation exceeds the budget are resampled",
 ]
-MIN_MONITORS = {"instantiations": 3000, "queries": 300000, "cwr-calls": 500000, "product-calls": 80000, "magnitude-compare": 1000}
+MIN_MONITORS = {"instantiations": 3000, "queries": 300000, "cwr-calls": 500000, "product-calls": 80000, "magnitude-compare": 1000,
+                "builtin-operands-charged": 5000000}
 THOROUGH_MIN_SCALE = 8
 
 
@@ -206,6 +207,7 @@ def run_case(ctx, pydsdl, mon, template, workdir):
             break
         ctx.mon("cwr-calls", snap["cwr_calls"])
         ctx.mon("product-calls", snap["product_calls"])
+        ctx.mon("builtin-operands-charged", snap["enumerated_by_builtins"])
         ctx.notes.setdefault("max_observed", {"r": 0, "residues": 0, "product": 0, "tuples_per_instantiation": 0})
         mo = ctx.notes["max_observed"]
         mo["r"], mo["residues"] = max(mo["r"], snap["max_r"]), max(mo["residues"], snap["max_s"])
@@ -218,6 +220,9 @@ def run_case(ctx, pydsdl, mon, template, workdir):
     for v, s in enumerate(snaps[1:], 1):
         if s["tuples"] != base["tuples"] or s["cwr_calls"] != base["cwr_calls"] or s["product_calls"] != base["product_calls"]:
             ctx.violation("C16/enumeration-grows", "enumerated tuples / calls differ between magnitudes: %r vs %r" % (base, s),
+                          {"template": u0, "slots": [[list(k), list(v2)] for k, v2 in slots.items()], "ext_slots": ext_slots, "variant": v})
+        elif s["enumerated_by_builtins"] > 1.5 * base["enumerated_by_builtins"] + 2000:
+            ctx.violation("C16/numeric-enumeration-grows", "elements walked by min/max/sum/sorted inside the symbolic code grow with magnitude: %r vs %r" % (base, s),
                           {"template": u0, "slots": [[list(k), list(v2)] for k, v2 in slots.items()], "ext_slots": ext_slots, "variant": v})
         elif s["steps"] > 1.5 * base["steps"] + 2000:
             ctx.violation("C16/steps-grow", "logical steps grow with magnitude: %r vs %r" % (base, s),
